@@ -260,7 +260,12 @@ def install_stub(key, holder):
     mod, qn = key.split(":")
     m = importlib.import_module(mod)
     cn, mn = qn.split(".", 1)
-    setattr(getattr(m, cn), mn, lambda *a, **k: list(holder["value"]))
+    def stub(*a, **k):
+        v = list(holder["value"])
+        speclib.CALLS.append((qn, v))       # clauses speak about it through call_result('Class.method')
+        speclib.CALL_ARGS.append((qn, a, k, {}))
+        return v
+    setattr(getattr(m, cn), mn, stub)
 
 
 def main():
@@ -351,8 +356,8 @@ def main():
             env["__old"] = oe.old
             try:
                 ok = bool(eval(oe.rewritten(), env))
-            except NameError:
-                continue    # the clause mentions locals of the function: only the prover can evaluate it
+            except (NameError, ZeroDivisionError, OverflowError):
+                continue    # the clause mentions locals of the function / is not evaluable on this input: left to the prover
             except (IndexError, KeyError, AttributeError, TypeError) as e:
                 ok = False
             if not ok:
